@@ -83,6 +83,13 @@ theorem tie_suppress_dispatch :
     C12.suppressCond = "Policy==KubeletCPUManagerPolicyStatic" ∧
     C12.suppressElseCalls = ["applyCPUSetWithNonePolicy($1,$2)"] := by decide
 
+/-- adjustByCPUSet hands applyBESuppressCPUSet, as oldCPUSet, the cgroup reader's reading of the besteffort ROOT dir
+    (`adjustOld` in Model/C12Adjust.lean) - not koordletutil.GetBECgroupCurCPUSet(), the narrowest container / root set,
+    which adjust_old_narrowest_counterexample refutes; the variable is assigned exactly once in the function. -/
+theorem tie_adjust_old_source :
+    C12.adjustOldSource = "cgroupReader.ReadCPUSet(GetPodQoSRelativePath(PodQOSBestEffort)).ToInt32Slice()" ∧
+    C12.adjustOldAssignments = 1 := by decide
+
 /-- the ORDER of the two calls of the static arm: recover besteffort + pod dirs FIRST, containers afterwards
     (`staticPolicy` in the model; the swapped order is refuted by static_policy_swapped_order_counterexample). -/
 theorem tie_static_policy_order :
